@@ -89,6 +89,25 @@ def case(draw, tier):
            "nested": draw(st.integers(0, 3)) == 0, "siblings": siblings}
     if via == "if_":
         out["side"] = side
+    if via == "switch":
+        # the branches hand the chosen input on through a nested graph node: the switch output is then in forwarding mode
+        # (it forwards to the branch's terminal instead of owning a reference)
+        # NOT GENERATED (DESIGN section 8): with a forwarding output the unchanged tree deviates from the statement in several ways
+        # that could not be told apart soundly - first selection / retarget from an invalid endpoint not seen as a transition,
+        # retarget onto a ticking target reporting the target's own delta, a tick of the deselected target reaching the consumer
+        # after such a history. The code path below is kept for experiments (VERIF_C13_FWD=1).
+        out["switch_fwd"] = bool(__import__("os").environ.get("VERIF_C13_FWD")) and draw(st.booleans())
+        if out["switch_fwd"]:
+            # F29 is excluded by construction (and kept as corpus inputs): both targets are written in the first cycle, and
+            # the selection never changes in a cycle in which a target ticks
+            for n in ("a", "b"):
+                if not out[n] or out[n][0][0] != start:
+                    seed_op = {"k": "set", "v": 1} if shape.startswith("TS[") else {"k": "S", "ops": [["add", 1]]} if shape.startswith("TSS") else {"k": "D", "ops": [["set", 1, 1]]}
+                    out[n] = [[start, [seed_op]]] + [x for x in out[n] if x[0] != start]
+            busy = {t for n in ("a", "b") for t, _ in out[n]}
+            out["c"] = [x for x in out["c"] if x[0] not in busy]
+            if not out["c"] or siblings or not (shape.startswith("TS[") or shape.startswith("TSS") or shape.startswith("TSD[int,TS[int]]")):
+                out["switch_fwd"] = False
     return out
 
 
@@ -182,6 +201,11 @@ def check(case, ctx) -> Result:
     if via == "switch":
         subs["PA"] = {"params": [shape, shape], "names": ["a", "b"], "out": shape, "stmts": [], "ret": {"arg": 0}}
         subs["PB"] = {"params": [shape, shape], "names": ["a", "b"], "out": shape, "stmts": [], "ret": {"arg": 1}}
+        if case.get("switch_fwd"):
+            subs["PF"] = {"params": [shape], "out": shape, "stmts": [], "ret": {"arg": 0}}
+            for nm, i in (("PA", 0), ("PB", 1)):
+                subs[nm]["stmts"] = [{"id": "fw", "op": "nested", "sub": "PF", "ins": [{"arg": i}]}]
+                subs[nm]["ret"] = "fw"
     sel = "sel0"
     if via == "if_":
         sel = {"r": "sel0", "path": [0 if case["side"] else 1]}      # the "true" / "false" field of the router's output
@@ -226,9 +250,13 @@ def check(case, ctx) -> Result:
     cur = None         # "a" / "b"
     held = None        # the value the consumers hold (contents of the previous target as last seen)
     feats0 = {"shape": shape, "nested": case["nested"], "via": via, "siblings": bool(sib)}
+    if case.get("switch_fwd"):
+        feats0["switch_fwd"] = True
+        res.labels.append("switch_forwarding_output")
     exp = {}           # t -> dict(value, kind, delta alternatives)
     retarget_to_old = unselected_tick_after = False
     maybe_unbound = True
+    n_retargets = 0
     for t in range(start, end):
         for n in names:
             MS[n].begin_cycle()
@@ -270,8 +298,13 @@ def check(case, ctx) -> Result:
                     olds.append(val_of(prev_m))   # the previous target may have ticked in this very cycle
                 if maybe_unbound:
                     olds.append(None)              # nothing was bound before (first bind, or after a silent unbind)
+                elif case.get("switch_fwd") and n_retargets == 1:
+                    olds.append(None)              # F29: the first selection of a forwarding-mode switch_ was not seen as a transition
                 maybe_unbound = False
-                exp[t] = {"kind": "retarget", "value": v, "olds": olds}
+                n_retargets += 1
+                prev_valid = prev_m is not None and tvalid(prev_m)
+                # (forwarding-mode switch_, F29) a retarget from an absent / invalid target or onto a ticking one
+                exp[t] = {"kind": "retarget", "value": v, "olds": olds, "special": bool(ticked or not prev_valid)}
             else:
                 exp[t] = {"kind": "retarget_invalid"}
                 maybe_unbound = True
@@ -300,6 +333,9 @@ def check(case, ctx) -> Result:
         for t in range(start, end):
             e, g = exp.get(t), got.get(t)
             feats = dict(feats0, kind=(e or {}).get("kind", "none"))
+            if case.get("switch_fwd") and e is not None and e.get("kind") == "retarget":
+                # F29: forwarding-mode switch_, retarget from an invalid / absent target or onto a target ticking in that cycle
+                feats["fwd_from_invalid_or_onto_ticking"] = bool(e.get("special"))
             if e is None:
                 if g is not None:
                     why = "republished selection" if t in sc else "tick of the unselected target" if any(t in scripts[n] for n in names) else "nothing"
